@@ -652,37 +652,48 @@ class Executor:
             raise Unsupported(site + f' subscript {o.sort}[{k.sort}]')
 
     def ev_BinOp(self, e, p):
-        for p1, vs in self.ev_seq([e.left, e.right], p):
-            if isinstance(vs, Exc):
-                yield p1, vs; continue
-            a, b = vs; op = type(e.op)
-            key = (a.sort, op.__name__, b.sort)
-            if key in self.registry.binops:
-                yield from self.registry.binops[key](self, a, b, p1, self.site(e)); continue
-            if a.sort == 'int' and b.sort == 'int':
-                if op is ast.Add: yield p1, Int(a.t + b.t)
-                elif op is ast.Sub: yield p1, Int(a.t - b.t)
-                elif op is ast.Mult: yield p1, Int(a.t * b.t)
-                elif op in (ast.FloorDiv, ast.Mod):
-                    q = p1.fork(b.t == 0)
-                    if sat(q.pc): yield q, Exc('ZeroDivisionError', self.site(e))
-                    q = p1.fork(b.t != 0)
-                    if sat(q.pc):
-                        fd, fm = floordiv(a.t, b.t)
-                        yield q, Int(fd if op is ast.FloorDiv else fm)
-                else: raise Unsupported(self.site(e))
-            elif a.sort == 'dt' and b.sort == 'dt' and op is ast.Sub: yield p1, Val('td', a.t - b.t)
-            elif a.sort == 'dt' and b.sort == 'td' and op in (ast.Add, ast.Sub):
-                yield p1, Val('dt', a.t + b.t if op is ast.Add else a.t - b.t, x=a.x)
-            elif a.sort == 'td' and b.sort == 'td' and op in (ast.Add, ast.Sub):
-                yield p1, Val('td', a.t + b.t if op is ast.Add else a.t - b.t)
-            elif a.sort == 'str' and op is ast.Mod:
-                q = p1.inexact(); yield q, Str(z3.FreshConst(S, 'fmt'))
-            elif a.sort == 'str' and b.sort == 'str' and op is ast.Add: yield p1, Str(z3.Concat(a.t, b.t))
-            elif 'opaque' in (a.sort, b.sort):
-                q = p1.inexact(); yield q, Val('opaque', x=ast.unparse(e))
-                q = p1.inexact(); yield q, Exc('<any>', self.site(e), exact=False)
-            else: raise Unsupported(self.site(e) + f' {a.sort} {op.__name__} {b.sort}')
+        for p0, vs0 in self.ev_seq([e.left, e.right], p):
+            if isinstance(vs0, Exc):
+                yield p0, vs0; continue
+            if vs0[0].sort == 'str' and isinstance(e.op, ast.Mod):       # "fmt" % anything: only builds a message
+                q = p0.inexact(); yield q, Str(z3.FreshConst(S, 'fmt')); continue
+            for pa, a in self.narrow(vs0[0], p0):
+                for pb, b in self.narrow(vs0[1], pa):
+                    yield from self.binop(a, b, type(e.op), pb, e)
+
+    def binop(self, a, b, op, p1, e):
+        site = self.site(e)
+        key = (a.sort, op.__name__, b.sort)
+        if key in self.registry.binops:
+            yield from self.registry.binops[key](self, a, b, p1, site); return
+        if a.sort == 'none' or b.sort == 'none':
+            yield p1, Exc('TypeError', site); return
+        if a.sort == 'int' and b.sort == 'int':
+            if op is ast.Add: yield p1, Int(a.t + b.t)
+            elif op is ast.Sub: yield p1, Int(a.t - b.t)
+            elif op is ast.Mult: yield p1, Int(a.t * b.t)
+            elif op in (ast.FloorDiv, ast.Mod):
+                q = p1.fork(b.t == 0)
+                if sat(q.pc): yield q, Exc('ZeroDivisionError', site)
+                q = p1.fork(b.t != 0)
+                if sat(q.pc):
+                    fd, fm = floordiv(a.t, b.t)
+                    yield q, Int(fd if op is ast.FloorDiv else fm)
+            else: raise Unsupported(site)
+        elif a.sort == 'dt' and b.sort == 'dt' and op is ast.Sub: yield p1, Val('td', a.t - b.t)
+        elif a.sort == 'dt' and b.sort == 'td' and op in (ast.Add, ast.Sub):
+            yield p1, Val('dt', a.t + b.t if op is ast.Add else a.t - b.t, x=a.x)
+        elif a.sort == 'td' and b.sort == 'td' and op in (ast.Add, ast.Sub):
+            yield p1, Val('td', a.t + b.t if op is ast.Add else a.t - b.t)
+        elif a.sort == 'str' and b.sort == 'str' and op is ast.Add: yield p1, Str(z3.Concat(a.t, b.t))
+        elif a.sort == 'set' and b.sort == 'set' and op in (ast.Sub, ast.BitAnd, ast.BitOr):
+            u = z3.FreshConst(S, 'u')
+            body = {ast.Sub: z3.And(a.t[u], z3.Not(b.t[u])), ast.BitAnd: z3.And(a.t[u], b.t[u]), ast.BitOr: z3.Or(a.t[u], b.t[u])}[op]
+            yield p1, SetV(z3.Lambda([u], body))
+        elif 'opaque' in (a.sort, b.sort):
+            q = p1.inexact(); yield q, Val('opaque', x=ast.unparse(e))
+            q = p1.inexact(); yield q, Exc('<any>', site, exact=False)
+        else: raise Unsupported(site + f' {a.sort} {op.__name__} {b.sort}')
 
     def ev_Dict(self, e, p):
         if any(k is None for k in e.keys): raise Unsupported(self.site(e) + ' dict unpacking')
